@@ -67,14 +67,12 @@ def exhaustive_table(quick):
                                                    "CacheSize": 0, "MaxHeight": 2}),
             ("v0_4tx_size3_cache2", "C12_v0.cfg", {"Txs": ABCD, "Size": 3, "MaxTxsBytes": 5, "MaxTxBytes": 3,
                                                    "CacheSize": 2, "MaxHeight": 2}),
-            ("v0_cache6_block2", "C12_v0.cfg", {"Txs": ABCD, "CacheSize": 6, "MaxBlock": 2, "MaxHeight": 3,
-                                                "Peers": [1, 2]}),
+            ("v0_cache6_block2", "C12_v0.cfg", {"Txs": ABCD, "CacheSize": 6, "MaxBlock": 2, "MaxHeight": 3}),
             ("v1_ttl_recheck", "C12_v1.cfg", {"Txs": AB, "CacheSize": 2, "MaxHeight": 2, "TTL": 1, "Senders": [""],
                                               "MaxInflight": 1}),
             ("v1_cache1_3tx", "C12_v1.cfg", {"CacheSize": 1, "Senders": [""], "MaxHeight": 1}),
             ("v1_cache0_depth9", "C12_v1.cfg", {"Txs": AB, "CacheSize": 0, "MaxHeight": 1, "MaxDepth": 9}),
-            ("v1_cache2_senders", "C12_v1.cfg", {"Txs": AB, "CacheSize": 2, "MaxHeight": 1, "Gases": [1, 2],
-                                                 "PostLimits": [1]}),
+            ("v1_cache2_senders", "C12_v1.cfg", {"Txs": AB, "CacheSize": 2, "MaxHeight": 1, "PostLimits": [1]}),
         ]
     return t
 
@@ -365,7 +363,7 @@ def run(ctx):
     quick = ctx.tier == "quick"
     runs, info = build_runs(ctx, quick)
 
-    nrandom, randlen, nconc = (120, 40, 12) if quick else (1000, 60, 80)
+    nrandom, randlen, nconc = (120, 40, 12) if quick else (800, 60, 80)
     with ThreadPoolExecutor(max_workers=2) as ex:
         f0 = ex.submit(run_harness, ctx, "v0", runs["v0"], nrandom, randlen, nconc)
         f1 = ex.submit(run_harness, ctx, "v1", runs["v1"], nrandom, randlen, nconc)
